@@ -147,6 +147,12 @@ namespace
     {
         template <int I> std::pair<int, int> operator()(const Tag<I>& t) const { return {I, t.v}; }
     };
+    // visits mixing the 34-alternative variant with others: (big index, big value, other alternative, other value)
+    struct MixedVisitor
+    {
+        template <int I, class T> std::vector<long> operator()(const Tag<I>& t, const T& x) const { auto r = Visitor1()(x); return {I, t.v, static_cast<long>(r.first), static_cast<long>(r.second)}; }
+        template <int I, class T> std::vector<long> operator()(const T& x, const Tag<I>& t) const { auto r = Visitor1()(x); return {I, t.v, static_cast<long>(r.first), static_cast<long>(r.second)}; }
+    };
 
     struct World
     {
@@ -666,8 +672,10 @@ namespace
 
         void op_big(const Step& st)
         {
-            static const char* const vn[] = {"emplace", "copy", "compare"};
-            unsigned v = static_cast<unsigned>(st.d % 3);
+            // (two 34-alternative variants in one visit, or three variants with one of them, cost minutes of compile time
+            // per translation unit and are not instantiated)
+            static const char* const vn[] = {"emplace", "copy", "compare", "visit_big_small", "visit_small_big"};
+            unsigned v = static_cast<unsigned>(st.d % 5);
             int idx = static_cast<int>(st.a % 34);
             if ((st.a >> 8) % 3 == 0) idx = 32 + static_cast<int>(st.a % 2);
             Scope sc(*this, st, "big", std::string(vn[v]) + (idx >= 32 && v == 0 ? "_ge32" : ""));
@@ -686,6 +694,24 @@ namespace
                 if (!(c == b) || c.index() != b.index()) viol("model", "big", "copy of a 34-alternative variant differs from its source");
                 BV d; d = c;
                 if (!(d == b)) viol("model", "big", "copy assignment of a 34-alternative variant differs from its source");
+            }
+            else if (v >= 3)
+            {
+                // multi-variant visitation in which a variant with more than 32 alternatives is NOT the last argument
+                int t = st.actor % 3;
+                const V& sv = slot[t].get();
+                std::vector<long> got, want;
+                bool threw = false;
+                try
+                {
+                    if (v == 3) { got = xtl::visit(MixedVisitor(), static_cast<const BV&>(b), sv); want = {big_index, big_value, static_cast<long>(model[t].index), static_cast<long>(model[t].id)}; }
+                    else { got = xtl::visit(MixedVisitor(), sv, static_cast<const BV&>(b)); want = {big_index, big_value, static_cast<long>(model[t].index), static_cast<long>(model[t].id)}; }
+                }
+                catch (const xtl::bad_variant_access&) { threw = true; }
+                bool expect_throw = model[t].valueless;
+                if (threw != expect_throw) viol("model", "big", std::string("visit over a 34-alternative variant and others ") + (threw ? "threw bad_variant_access although all hold a value" : "did not throw although one is valueless"));
+                if (!threw && got != want) viol("model", "big", std::string("visit (") + vn[v] + ") with the 34-alternative variant holding index " + std::to_string(big_index) + " passed the wrong alternatives to the visitor");
+                if (big_index >= 32 && v == 3) SIM_PROBE("multi_visit_with_index_ge_32_not_last");
             }
             else
             {
